@@ -51,6 +51,15 @@ theorem C10_tie_avs_owner_lists :
        ("Keeper.UpdateAVSInfo", "avsInfo.Info.AvsOwnerAddress contains params.CallerAddress"),
        ("Keeper.CreateAVSTask", "avsInfo.AvsOwnerAddress contains params.CallerAddress")] := by decide
 
+/-- "rejected without any state change": in CreateAVSTask nothing is written before the owner-list check —
+the only calls that precede `slices.Contains(avsInfo.AvsOwnerAddress, params.CallerAddress)` are the AVS lookup
+and error formatting; the task-id allocation (`GetTaskID`, which stores the bumped counter) and `SetTaskInfo`
+come after it; the precompile wrapper calls nothing but the argument parser before the keeper -/
+theorem C10_tie_createTask_owner_check_before_writes :
+    callSeqCreateAVSTask.takeWhile (· != "Contains") = ["GetAVSInfoByTaskAddress", "Wrap", "Sprintf"] ∧
+    callSeqCreateAVSTask.filter (· ∈ ["Contains", "GetTaskID", "SetTaskInfo"]) = ["Contains", "GetTaskID", "SetTaskInfo"] ∧
+    callSeqPrecompileCreateAVSTask.takeWhile (· != "CreateAVSTask") = ["GetTaskParamsFromInputs", "String"] := by decide
+
 /-- SetTaskResultInfo compares the signer (`addr` = req.FromAddress = the field GetSigners returns) with
 Info.OperatorAddress exactly once, as the first top-level statement, *before* `switch info.Stage`: it
 dominates every phase branch (`admitTaskResult` has the comparison outside its `match`). A comparison moved
